@@ -124,10 +124,15 @@ CLAIMED = {
     'C16': dict(text=T("Theorems: C16_utf8_valid_iff — the Unicode table 3-7 automaton accepts exactly the valid texts; C16_from_utf8 — accepted bytes yield exactly that text; "
         "C16_from_utf8_lossy — for EVERY chunk list utf8_chunks can produce and any capacity guess, the with_capacity/push_str/push(U+FFFD) loop never reaches UB and (absent allocation "
         "failure) builds exactly the text the same loop builds in a String, including when replacement characters outgrow with_capacity(len); C16_from_utf16 likewise for the "
-        "per-char push loop of from_utf16 / from_utf16_lossy. std's decoders (str::from_utf8, utf8_chunks, char::decode_utf16) are the same code on both sides and are oracles. Tie: "
+        "per-char push loop of from_utf16 / from_utf16_lossy. The decoders themselves are modelled on bytes / code units (Lossy.v): C16_lossy_decoder — the lossy text of EVERY byte sequence is "
+        "well-formed UTF-8, equals the input when that is well formed, and is at most 3x as long; C16_chunks — the chunks of Utf8Chunks are valid pieces and spell exactly the lossy text; "
+        "C16_from_utf8_lossy_bytes — hence from_utf8_lossy on bytes yields lossy bs for any capacity guess and allocator; C16_utf16_decoder — every decoded unit is a scalar and "
+        "encode-then-decode is the identity with no error. std's decoders remain the oracle the models are validated against. Tie: "
         "the real from_utf8 / from_utf8_lossy / from_utf16 / from_utf16_lossy against String's on every sequence over a 20-byte-class alphabet up to length 5 (quick) / 6 (thorough) and an "
-        "8-class u16 alphabet up to length 6 / 7 plus damaged long inputs; the Coq automaton utf8_valid against std::str::from_utf8 on every sequence up to length 4 / 5."),
-        note=TB + " utf8_chunks and decode_utf16 are std code (oracles).",
+        "8-class u16 alphabet up to length 6 / 7, every short tail after 13 long valid prefixes (15-65 bytes, ASCII and non-ASCII), plus damaged long inputs, compared as bytes; the extracted Coq "
+        "automaton utf8_valid and decoder lossy against std::str::from_utf8 / String::from_utf8_lossy on every sequence up to length 4 / 5, and the extracted utf16_decode against "
+        "String::from_utf16 / from_utf16_lossy on every sequence up to length 5 / 6."),
+        note=TB + " utf8_chunks and decode_utf16 are std code: modelled in Lossy.v and validated against std on the sweeps, not verified.",
         technique="Coq: decoders as operation sequences refined to Spec (instances of the history theorem) + automaton/validity equivalence; exhaustive small-alphabet sweeps against String", design='§7 C16'),
     'C19': dict(text=T("Theorems (thin by nature: the integration is four one-line wrappers): C19_visit_bytes_accepts_iff_valid — byte input is accepted exactly when it is valid UTF-8; "
         "C19_from_str_is_transparent — visit_str / visit_borrowed_str / visit_bytes(valid) / Arbitrary yield exactly the given text; C19_serialize_sees_text — Serialize hands serde "
